@@ -287,6 +287,10 @@ def rule_path_highlight(ctx, rep):
                     red.append(int(m.group(1)))
             rep.check(sorted(red) == sorted(want), rule, f"{name}: highlighted blocks of path {want}", where, sorted(red), sorted(want),
                       why="the exported path graph does not mark the blocks of the reported path", sample={"program": name, "path": want})
+            edges = sorted((int(a), int(b)) for a, b, _ in EDGE_RE.findall(dot))
+            want_e = _global_edges(ref, src)
+            rep.check(edges == want_e, rule, f"{name}: edges of the graph drawn for path {want}", where, edges, want_e,
+                      why="the graph a path is drawn on is not the contract's control-flow graph (callsub -> callee, retsub -> return point, no direct callsub -> return point edge)")
 
 
 def rule_context_annotations(ctx, rep):
@@ -331,6 +335,12 @@ def rule_context_annotations(ctx, rep):
             if i in want and not (want[i][0] in ch and want[i][1] in ch):
                 bad.append(i)
         rep.check(not bad, rule, f"{name}: annotations are the blocks' own contexts", where, bad, [], sample={"program": name, "blocks": len(want)})
+        ref = reference_cfg(ctx, src)
+        edges = sorted((int(a), int(b)) for a, b, _ in EDGE_RE.findall(full[0]))
+        fblocks = {w.getattr(b, "idx") for b in w.getattr(fn, "blocks")}
+        want_e = _global_edges(ref, src)
+        rep.check(edges == want_e, rule, f"{name}: edges of the annotated graph", where, edges, want_e,
+                  why="the annotated graph is not the contract's control-flow graph")
 
 
 def rule_json_envelope(ctx, rep):
@@ -383,3 +393,108 @@ def rule_json_envelope(ctx, rep):
     except (PyRaise, ValueError) as e:
         ok = False
     rep.check(ok, rule, "json written to a file", where, sorted(w.files), "out.json with success=true")
+
+
+def cli_defaults(ctx):
+    """default values of the command-line namespace, read off the add_argument calls of parse_args (never executed):
+    {dest: default}"""
+    fn = ctx.tree(MAIN)       # parse_args and the helpers that add the options shared by the subcommands
+    ctx.func(MAIN, "parse_args")
+    out = {"subcommand": None}
+    for call in [n for n in ast.walk(fn) if isinstance(n, ast.Call) and isinstance(n.func, ast.Attribute) and n.func.attr == "add_argument"]:
+        flags = [a.value for a in call.args if isinstance(a, ast.Constant) and isinstance(a.value, str)]
+        kws = {k.arg: k.value for k in call.keywords}
+        if "dest" in kws and isinstance(kws["dest"], ast.Constant):
+            dest = kws["dest"].value
+        else:
+            longs = [f for f in flags if f.startswith("--")]
+            dest = (longs[0][2:] if longs else flags[0].lstrip("-")).replace("-", "_") if flags else None
+        if dest is None:
+            continue
+        default = None
+        if "default" in kws:
+            try:
+                default = ast.literal_eval(kws["default"])
+            except (ValueError, SyntaxError):
+                default = None
+        elif isinstance(kws.get("action"), ast.Constant) and kws["action"].value == "store_true":
+            default = False
+        out[dest] = default
+    return out
+
+
+def rule_main_detect(ctx, rep):
+    rule = "T-MAIN"
+    rep.rule(rule, "the `detect` command evaluated from main() down (argument parsing and plugin discovery replaced by their results): the JSON "
+                   "report lists exactly the paths the detector reports, minus - with --filter-paths - those whose short notation the given "
+                   "regular expression matches (the whole option value is one regular expression); count = number of listed paths")
+    import re as _re
+    w = _capture(ctx)
+    mod = w.module(MAIN)
+    main = w.func(MAIN, "main")
+    where = f"{ctx.path(MAIN)}:{main.node.lineno}"
+    defaults = cli_defaults(ctx)
+    rep.require({"filter_paths", "json", "detectors_to_run", "contracts", "group_config"} <= set(defaults),
+                f"command-line options not found in parse_args: {sorted(defaults)}")
+    dets = list(detector_classes(ctx).values())
+    prs = list(printer_classes(ctx).values())
+    src = programs()["dispatcher"]
+    NS = w.cls("tealer.exceptions", "TealerException")       # any class: used as a bag of attributes (argparse.Namespace)
+
+    def run(filter_paths, detector="rekey-to"):
+        args = Obj(NS)
+        args.fields.update(defaults)
+        args.fields.update({"subcommand": "detect", "contracts": ["c.teal"], "detectors_to_run": detector, "json": "-", "filter_paths": filter_paths,
+                            "network": "mainnet", "debug": False})
+        saved = {}
+        for name, probe in (("get_detectors_and_printers", lambda *a, **k: (list(dets), list(prs))), ("parse_args", lambda *a, **k: args)):
+            saved[name] = mod.lookup(name)
+            mod.values[name] = ("host", probe)
+        pf = w.module("tealer.teal.parse_functions")
+        saved_an = pf.values.get("_apply_transaction_context_analysis")
+        pf.lookup("_apply_transaction_context_analysis")
+        saved_an = pf.values["_apply_transaction_context_analysis"]
+        pf.values["_apply_transaction_context_analysis"] = ("builtin", "noop")
+        w.files = {"c.teal": src}
+        w.stdout = []
+        try:
+            try:
+                w.call(main)
+            except PyRaise as e:
+                if e.exc != "SystemExit":
+                    return f"RAISES {e.exc} {e.where}"
+            text = "\n".join(w.stdout)
+            start = text.find("{")
+            try:
+                return json.loads(text[start:])
+            except ValueError:
+                return f"no JSON document on stdout: {text[:200]!r}"
+        finally:
+            for name, v in saved.items():
+                mod.values[name] = v
+            pf.values["_apply_transaction_context_analysis"] = saved_an
+            w.stdout = None
+
+    base = run(None)
+    ok = isinstance(base, dict) and base.get("success") is True and isinstance(base.get("result"), list) and len(base["result"]) == 1
+    rep.check(ok, rule, "detect --detectors rekey-to --json - runs and reports one detector result", where,
+              base if not isinstance(base, dict) else {k: base.get(k) for k in ("success", "error")}, "success with one result")
+    if not ok:
+        return
+    all_paths = [p["short"] for p in base["result"][0]["paths"]]
+    rep.check(len(all_paths) >= 4 and base["result"][0]["count"] == len(all_paths), rule, "unfiltered report lists the paths and counts them", where,
+              {"count": base["result"][0]["count"], "paths": all_paths}, ">= 4 paths, count = number of paths")
+    patterns = ["^0 -> 1", r"\b2\b", r"( -> \d+){2,3}$", r"^\d+( -> \d+){0,1}$", "^[0-9 >-]{1,9}$", "", "x,y", r"-> (1|2)\b"]
+    n = 0
+    for pat in patterns:
+        got = run(pat)
+        want = [p for p in all_paths if pat == "" or _re.search(pat, p) is None]
+        if not isinstance(got, dict) or not got.get("result"):
+            rep.violation(rule, f"--filter-paths {pat!r}: runs", where, got if not isinstance(got, dict) else got.get("error"), "a report")
+            continue
+        gp = [p["short"] for p in got["result"][0]["paths"]]
+        n += 1
+        rep.check(gp == want and got["result"][0]["count"] == len(want), rule, f"--filter-paths {pat!r}", where,
+                  {"count": got["result"][0]["count"], "paths": gp}, {"count": len(want), "paths": want},
+                  why="the report does not list exactly the paths that the filter leaves", sample={"filter": pat, "paths left": want})
+    rep.count("filter patterns evaluated through main()", n)
